@@ -783,7 +783,10 @@ def _prepare_interferometer_matrix_in_expanded_space(interferometer_svd):
 
 
 def _calculate_singular_values_matrix_expansion(singular_values_vector):
-    vector_of_squared_expansions = 1.0 - np.power(singular_values_vector, 2)
+    # NOTE: A singular value of a lossless mode may exceed 1 by a rounding error.
+    vector_of_squared_expansions = np.clip(
+        1.0 - np.power(singular_values_vector, 2), 0.0, None
+    )
 
     expansion_values = np.sqrt(vector_of_squared_expansions)
 
